@@ -42,6 +42,19 @@ CHECKS = {
              "(integrator schema is C06). Outside: first-order realisation of (da, di, dOmega) beyond the tangential identity; "
              "off-grid continuous-burn quadrature.",
         ref="DESIGN.md section 3 C17", technique=TECH),
+    "C09": dict(
+        text="Interp.__call__/_prev_idx/_linear/_lagrange and DatedInterp.__call__ are executed symbolically on tables of symbolic "
+             "reals held in object-dtype arrays (the real numpy tile/repeat/diag/mask/prod/@ code runs): all paths of the binary "
+             "search return the bracketing interval (tables up to the bound); the window taken by _lagrange has exactly `order` "
+             "points, lies inside the table and contains the bracketing interval for EVERY table length n >= order (n symbolic, "
+             "order 2..12 symbolic); Lagrange interpolation of order k reproduces 1, x, ..., x^(k-1) for any distinct nodes in the "
+             "first, a middle and the last interval; interpolation at any node returns the tabulated value (Lagrange and linear); "
+             "linear interpolation is the piecewise-linear interpolant; outside [first, last] a ValueError with the date message is "
+             "raised and never a value.",
+        note="Trusted: z3; numpy object-dtype kernels. Bounded: binary search tables <= 8 (quick) / 16 (thorough) entries; "
+             "reproduction orders 2..6 (quick) / 2..8 (thorough). Outside: centimetre accuracy for smooth orbits (analysis), "
+             "bit-precise exactness in binary64, orders above the bound.",
+        ref="DESIGN.md section 3 C09", technique=TECH),
     "C11": dict(
         text="create_station, _geodetic_to_cartesian, TopocentricOrientation, Center/Orientation.convert_to, Frame.transform, the "
              "spherical form and the Range/Azimut/Elevation/Doppler measures are executed symbolically end to end: proved for every "
